@@ -417,6 +417,19 @@ func special(c *Case, src tlx.Src) error {
 				if got, ok := tl.UnwrapNativeTypes(obj).([]int32); !ok || fmt.Sprint(got) != fmt.Sprint(want) {
 					return fmt.Errorf("Vector<int> with hint decoded to %v, want %v", tl.UnwrapNativeTypes(obj), want)
 				}
+				// the caller's own list of predictions (one per nesting level, kept in a table and used for every answer of
+				// that kind): the vector inside an rpc_result, read twice with the same list
+				kept := []reflect.Type{reflect.TypeOf([]int32{}), reflect.TypeOf([]int64{})}
+				res := append(binary.LittleEndian.AppendUint64(binary.LittleEndian.AppendUint32(nil, 0xf35c6d01), 77), w...)
+				for round := 1; round <= 2; round++ {
+					o2, err := tl.DecodeUnknownObject(res, kept...)
+					if err != nil {
+						return fmt.Errorf("rpc_result{Vector<int>} decoded with the caller's list of two predictions, use %d of the same list: %v", round, err)
+					}
+					if rr, ok := o2.(*objects.RpcResult); !ok || fmt.Sprint(tl.UnwrapNativeTypes(rr.Obj)) != fmt.Sprint(want) {
+						return fmt.Errorf("rpc_result{Vector<int>} decoded with the caller's list of two predictions, use %d of the same list: got %v, want %v", round, o2, want)
+					}
+				}
 			case 1:
 				n := pick(6)
 				w := binary.LittleEndian.AppendUint32(nil, 0x1cb5c415)
